@@ -19,7 +19,8 @@ CONFIG = {
              "prune_subtree, prune_leaves_without_taxa, extract_tree(filter), extract_tree_with_taxa, "
              "..._with_taxa_labels, ..._without_taxa, ..._without_taxa_labels) x suppress_unifurcations x "
              "update_bipartitions x rooting. Exhaustive part: every non-empty subset x every variant x both "
-             "suppress settings for every ordered shape with <= 5 (quick) / <= 6 (thorough) leaves. Non-trivial = K "
+             "suppress settings for every ordered shape with <= 5 (quick) / <= 6 (thorough) leaves. History part: 2-3 "
+             "pruning/extraction steps in a row on the same objects, optionally after an encoding. Non-trivial = K "
              "empties at least one clade or leaves the root (or another internal node) with one child; distinct = "
              "(spec, K, variant, flags)."),
     "exhaustive_note": {"quick": "all ordered shapes with 2-5 leaves x all non-empty leaf subsets x 11 variants x suppress",
@@ -53,6 +54,19 @@ def cases(draw, max_leaves):
                                                                                    "coclade", "random", "random"])),
             "ksel": draw(st.integers(0, 2 ** 30)), "variant": draw(st.sampled_from(VARIANTS)),
             "su": draw(st.booleans()), "ub": draw(st.booleans()), "rooted": draw(st.sampled_from([True, False, None]))}
+
+
+@st.composite
+def history_cases(draw, max_leaves):
+    sl = draw(shapes.with_lengths(shapes.shapes(min_leaves=4, max_leaves=max_leaves, max_arity=4, unifurcations=True),
+                                  patterns=("unit", "smallint", "dyadic", "partial", "none")))
+    steps = []
+    for _ in range(draw(st.integers(2, 3))):
+        steps.append({"kclass": draw(st.sampled_from(["allbut1", "clade", "coclade", "random", "random"])), "ksel": draw(st.integers(0, 2 ** 30)),
+                      "variant": draw(st.sampled_from(VARIANTS)), "su": draw(st.booleans()), "ub": draw(st.booleans()),
+                      "continue_on_copy": draw(st.booleans())})
+    return {"spec": sl["spec"], "lenpat": sl["lenpat"], "rooted": draw(st.sampled_from([True, False, None])), "steps": steps,
+            "encode_first": draw(st.booleans())}
 
 
 def choose_K(rt, kclass, ksel):
@@ -106,22 +120,53 @@ def same_tree(ctx, got, want, key, detail, lengths, tol_scale=1.0):
 
 
 def check_case(ctx, case):
+    spec = case["spec"]
+    n = RefTree.from_spec(spec).n_leaves()
+    ns, taxa, bits = shapes.build_namespace(shapes.plain_history(n))
+    tree = shapes.build_tree(spec, ns, taxa, is_rooted=case["rooted"])
+    run_variant(ctx, tree, ns, bits, case, spec)
+
+
+def check_history(ctx, case):
+    """2-3 pruning / extraction steps in a row on the same objects (optionally with an encoding made before the first
+    step): every step is judged against the induced subtree of the snapshot taken just before it."""
+    spec = case["spec"]
+    n = RefTree.from_spec(spec).n_leaves()
+    ns, taxa, bits = shapes.build_namespace(shapes.plain_history(n))
+    tree = shapes.build_tree(spec, ns, taxa, is_rooted=case["rooted"])
+    if case.get("encode_first"):
+        tree.encode_bipartitions(suppress_unifurcations=False, collapse_unrooted_basal_bifurcation=False)
+    for k, stp in enumerate(case["steps"]):
+        cur, problems = snapshot(tree)
+        if problems:
+            raise runner.HarnessError(repr(problems))
+        if cur.n_leaves() < 2 or any(cur.taxon[i] is None for i in cur.leaves()):
+            return
+        c = dict(stp)
+        c["rooted"] = tree.is_rooted
+        c["lenpat"] = case["lenpat"]
+        res = run_variant(ctx, tree, ns, bits, c, spec, step=k)
+        if res is None:
+            return
+        if c["variant"] in EXTRACT and stp.get("continue_on_copy"):
+            tree = res
+    ctx.cls("history:%d_steps" % len(case["steps"]))
+
+
+def run_variant(ctx, tree, ns, bits, case, spec, step=None):
     import dendropy
     from dendropy.utility.error import SeedNodeDeletionException
-    spec = case["spec"]
     variant = case["variant"]
     su, ub = case["su"], case["ub"]
     rooted_flag = case["rooted"]
-    src = RefTree.from_spec(spec)
+    pre, problems = snapshot(tree)
+    if problems:
+        raise runner.HarnessError(repr(problems))
+    src = pre
     n = src.n_leaves()
     K = choose_K(src, "coclade" if variant == "prune_subtree" else case["kclass"], case["ksel"])
     full = src.leafset()
     comp = full - K
-    ns, taxa, bits = shapes.build_namespace(shapes.plain_history(n))
-    tree = shapes.build_tree(spec, ns, taxa, is_rooted=rooted_flag)
-    pre, problems = snapshot(tree)
-    if problems:
-        raise runner.HarnessError(repr(problems))
     label_taxon = dict((t.label, t) for t in ns)
     Ktaxa = [label_taxon[l] for l in sorted(K)]
     Ctaxa = [label_taxon[l] for l in sorted(comp)]
@@ -229,13 +274,14 @@ def check_case(ctx, case):
     emptied = any(not (c & K) for c in src.clusters().values())
     one_child = any(sum(1 for c in src.children[i] if src.clusters()[c] & K) == 1 and len(src.children[i]) > 1 for i in src.internals())
     if emptied or one_child:
-        ctx.nontrivial([spec, sorted(K), variant, su, ub, rooted_flag])
+        ctx.nontrivial([spec, sorted(K), variant, su, ub, rooted_flag, step, src.canon() if step else None])
     ctx.cls("variant:" + variant)
     ctx.cls("kclass:" + case["kclass"])
     if len(K) == 1:
         ctx.cls("single_survivor")
-    ctx.sample(variant, {"newick": shapes.spec_to_newick(spec), "K": sorted(K), "variant": variant, "su": su, "ub": ub,
-                         "rooted": rooted_flag, "result": got.canon(ordered=True, lengths=True, labels=True)})
+    ctx.sample(variant if step is None else "history", {"newick": shapes.spec_to_newick(spec), "K": sorted(K), "variant": variant, "su": su, "ub": ub,
+                                                       "rooted": rooted_flag, "step": step, "result": got.canon(ordered=True, lengths=True, labels=True)})
+    return result_tree
 
 
 _SHAPES = {}
@@ -268,7 +314,7 @@ def check_exh(ctx, item):
     check_case(ctx, case)
 
 
-SUBCHECKS = {"random": check_case, "exhaustive": check_exh}
+SUBCHECKS = {"random": check_case, "exhaustive": check_exh, "history": check_history}
 
 
 def run(ctx):
@@ -276,3 +322,4 @@ def run(ctx):
     total = 4000 if quick else 80000
     runner.run_given(ctx, "random", cases(9 if quick else 25), check_case, total // ctx.nshards)
     runner.run_items(ctx, "exhaustive", exhaustive_items(5 if quick else 6), check_exh)
+    runner.run_given(ctx, "history", history_cases(9 if quick else 20), check_history, (2000 if quick else 30000) // ctx.nshards)
